@@ -14,7 +14,8 @@ Reads the *source text* with `ast` (nothing is imported or executed):
   * gen_ignored_unknown: ignore_unknown_features;
   * gen_desirable: DESIRABLE_SECTIONS (sorted);
   * gen_valid_choices_empty: VALID_CHOICES == {};
-  * gen_dispatch_ok: `check()` still iterates over sorted(funcs.keys()),
+  * gen_dispatch_ok: (informational only, not part of inventory_ok any more)
+                   `check()` still iterates over sorted(funcs.keys()),
                    skips "check_fl_" methods without fluorescence and
                    `check_dataset` calls `check(expand_section=False)`.
 
